@@ -968,6 +968,18 @@ def _check_std(e, v, j, fails):
         targ = args[0]
     if jt_norm(targ.get("ty")) != jt_norm(ety):
         fails.append(Failure(site, "collection-element-type", json.dumps(targ)[:300]))
+    # the bound written on the collection type is the one its definition gives it for this element type (computed by an
+    # independent reference over the type expression: a sum is copyable only if EVERY row is) — seeded change C14-13
+    try:
+        from props.C11 import ref_bound
+
+        db = td["bound"]
+        want_b = db["bound"] if db["b"] == "Explicit" else ("A" if any(
+            td["params"][i]["tp"] == "Type" and ref_bound(e[2]) == "@A" for i in db["indices"]) else "C")
+        if typ.get("bound") != want_b:
+            fails.append(Failure(site, "std-type-bound-not-the-definition's", f"{typ.get('bound')} written, {want_b} by the definition"))
+    except Exception:  # noqa: BLE001
+        pass
     payload = j.get("value", {}).get("v")
     inner = payload.get("value") if k == "@sarray" and isinstance(payload, dict) else payload
     if not isinstance(inner, dict) or "values" not in inner or "typ" not in inner:
